@@ -61,6 +61,14 @@ func c08Static(rep *Report, tier string) {
 	fx := NewFixture(work+"/fx", dedupPkgs(pkgs))
 	validateFixture(fx)
 	cases := casesFor(fx.Pkgs, allCfgs(), "S-cfg")
+	lp := scopeListPkg()
+	fx.writePkg(lp)
+	fx.Pkgs = append(fx.Pkgs, lp)
+	for _, l := range [][]string{{"RA", "RB"}, {"RB", "RA"}, {"LZ", "RB"}, {"LA", "LZ", "RB"}} {
+		for _, cfg := range []Cfg{{Resets: true}, {Resets: true, Stub: true, Pkg: 2}, {}} {
+			cases = append(cases, &Case{Dir: lp.Dir, Ifaces: l, Cfg: cfg, Scope: "S-list"})
+		}
+	}
 	prevEvals, _ := rep.Cov["evaluations"].(int)
 	prevDistinct, _ := rep.Cov["distinct_nontrivial"].(int)
 	runCases(fx, cases, rep, oracleC08)
